@@ -16,6 +16,7 @@
 #include <kernel/lafem/sparse_matrix_csr.hpp>
 #include <kernel/solver/multigrid.hpp>
 #include <cmath>
+#include <sstream>
 #include <deque>
 #include <memory>
 
@@ -700,7 +701,7 @@ int main(int argc, char** argv)
     "level vectors of the hierarchy keep stale contents between histories (don't-care state by contract)", "re-initialisation histories (values of all operators replaced by a second set, done/init numeric resp. symbolic+numeric of solver and hierarchy) and a bystander MultiGrid object on the same hierarchy are run for every (cycle,top,coarse) from the initial state, not inside the BFS",
     "adaptive CGC: (configuration, defect) pairs in which a coarse grid correction vanishes to rounding (|c| <= 1e-13 |defect|) are excluded from the result comparison (step length 0/0 not defined; trace and counters are still checked); the exactly-zero class is tested once by case 1",
     "bitwise comparison where the long double reference proves all intermediate terms exactly representable in double, else |diff| <= 1e-12*(largest sum of absolute terms of any inner product in the reference evaluation; relative, so that defects of magnitude 1e+-270 are judged like O(1) ones) + 64*|reference(long double) - reference(emulated double)| (the second term is evaluated only where the first alone fails: non-contractive configurations amplify rounding errors)",
-    "LAFEM::SparseMatrixCSR::apply, DenseVector::axpy/dot/copy are trusted here (C01/C04)"};
+    "LAFEM::SparseMatrixCSR::apply, DenseVector::axpy/dot/copy are trusted here (C01/C04)", "not covered: the Statistics/solver-expression side channel of MultiGrid (timing values themselves are only checked for sign, level and additivity), MPI-only ghost branches with a real Global::Muxer (C13)"};
 
   return verif::run(spec, argc, argv, [&](verif::Ctx& c) {
     // ---- case 0: the reference reproduces the documented picture
@@ -732,6 +733,61 @@ int main(int argc, char** argv)
         mg->done();
         B.hier->done();
       }
+    }
+
+    // ---- case 2: cycle names (stream operators used by the configuration parsers), solver name, per-level timing accessors
+    if(c.want())
+    {
+      c.desc([&]{ return std::string("MultiGridCycle << / >>, MultiGrid::name(), hierarchy timing accessors"); });
+      const char* good[6] = {"V", "v", "F", "f", "W", "w"};
+      for(int i = 0; i < 6; ++i)
+      {
+        std::istringstream is(std::string("  ") + good[i] + "Z");
+        Solver::MultiGridCycle cy = cyc_enum((i / 2 + 1) % 3); // something else
+        is >> cy;
+        char next = 0; is.get(next);
+        c.check(!is.fail() && cy == cyc_enum(i / 2) && next == 'Z', std::string("operator>>(MultiGridCycle) for '") + good[i] + "'", "wrong cycle parsed, stream failed or too many characters consumed");
+        std::ostringstream os; os << cyc_enum(i / 2);
+        c.check(os.str() == std::string(1, CYC[i / 2]), std::string("operator<<(MultiGridCycle) for ") + CYC[i / 2], [&]{ return os.str(); });
+      }
+      const char* bad[4] = {"x", "1", "", "-"};
+      for(int i = 0; i < 4; ++i)
+      {
+        std::istringstream is(bad[i]);
+        Solver::MultiGridCycle cy = Solver::MultiGridCycle::F;
+        is >> cy;
+        bool ok = is.fail() && cy == Solver::MultiGridCycle::F;
+        if(bad[i][0] != 0) { is.clear(); char next = 0; is.get(next); ok = ok && next == bad[i][0]; } // the offending character is put back
+        c.check(ok, std::string("operator>>(MultiGridCycle) for invalid input '") + bad[i] + "'", "no failbit, cycle modified or character not put back");
+      }
+      { std::ostringstream os; os << Solver::MultiGridCycle(7); c.check(os.str() == "?", "operator<<(MultiGridCycle) for an invalid value", [&]{ return os.str(); }); }
+      HSpec H = make_spec(0, 3, 0, std::vector<int>(2, 7), 1, 0);
+      Built B(H);
+      B.hier->init();
+      std::shared_ptr<MG> mg = Solver::new_multigrid(B.hier, Solver::MultiGridCycle::W);
+      mg->init();
+      for(int cy = 0; cy < 3; ++cy) { mg->set_cycle(cyc_enum(cy)); c.check(mg->name() == String("MultiGrid-") + String(1, CYC[cy]), "MultiGrid::name()", [&]{ return std::string(mg->name()); }); }
+      Vec def(Index(H.L[0].dim), 1.0), cor(Index(H.L[0].dim), 0.0);
+      mg->apply(cor, def);
+      bool t_ok = true;
+      double sums[4] = {0, 0, 0, 0};
+      for(int l = 0; l < 3; ++l)
+      {
+        const double t[4] = {B.hier->get_time_smooth(l), B.hier->get_time_coarse(l), B.hier->get_time_defect(l), B.hier->get_time_transfer(l)};
+        for(int k = 0; k < 4; ++k) { if(!(t[k] >= 0.0) || !std::isfinite(t[k])) t_ok = false; sums[k] += t[k]; }
+        if(l < 2 && t[1] != 0.0) t_ok = false; // coarse solver time only on the coarse level
+        if(l == 2 && (t[0] != 0.0 || t[3] != 0.0)) t_ok = false; // no smoothing / transfer on the coarse level
+      }
+      const double tot[4] = {B.hier->get_time_smooth(), B.hier->get_time_coarse(), B.hier->get_time_defect(), B.hier->get_time_transfer(-1)};
+      for(int k = 0; k < 4; ++k) if(!(std::fabs(tot[k] - sums[k]) <= 1e-12 * (1.0 + sums[k]))) t_ok = false;
+      c.check(t_ok, "hierarchy timing accessors", "negative / non-finite level time, time booked on the wrong level, or total != sum over levels");
+      B.hier->reset_timings();
+      bool z = true; for(int l = -1; l < 3; ++l) if(B.hier->get_time_smooth(l) != 0.0 || B.hier->get_time_coarse(l) != 0.0 || B.hier->get_time_defect(l) != 0.0 || B.hier->get_time_transfer(l) != 0.0) z = false;
+      c.check(z, "hierarchy reset_timings", "a timing is not zero after reset_timings()");
+      int sg = c.run_forked([&]{ (void)B.hier->get_time_smooth(3); });
+      c.check(sg == SIGABRT, "hierarchy timing accessor with an invalid level must abort", "get_time_smooth(size) returned");
+      mg->done();
+      B.hier->done();
     }
 
     for(int n = 1; n <= 6; ++n)
